@@ -103,6 +103,11 @@ func ParseToken(tokenString string, claims any) ([]byte, error) {
 	if err != nil {
 		return nil, fmt.Errorf("%w: malformed jwt payload: %v", ErrParse, err)
 	}
+	// A payload of "null" would silently reset a pointer passed as claims to nil
+	// and make every caller dereference it: only a JSON object is a claims set.
+	if bytes.Equal(bytes.TrimSpace(payload), []byte("null")) {
+		return nil, fmt.Errorf("%w: jwt payload is not a JSON object", ErrParse)
+	}
 	err = json.Unmarshal(payload, claims)
 	return payload, err
 }
